@@ -4,6 +4,7 @@ C05: producing corrections for a valid stream has no panic path (whatever the pr
 import Preflate.Proofs.Total
 import Preflate.Proofs.Predict
 namespace Preflate.Proofs
+set_option linter.unusedSectionVars false
 open Preflate
 
 variable {H : Type}
@@ -13,63 +14,76 @@ def NP (e : Fail) : Prop := ∀ m, e ≠ .panic m
 
 theorem NP.err : NP .err := fun _ h => by cases h
 
-theorem Post.npErr {α : Type} {Q : α → Prop} : Post NP Q (.error .err : R α) := .error _ NP.err
+/-- The lemmas below are generic in the class `E` of failures that are tolerated, as long as it
+    contains `Err(PreflateError)`: `NP` (anything but a panic) gives "no panic path", `(· = .err)` gives
+    "Err is the ONLY failure" (no panic and no exhausted loop bound). -/
+structure Tol (E : Fail → Prop) : Prop where
+  err : E .err
+
+theorem Tol.np : Tol NP := ⟨NP.err⟩
+theorem Tol.onlyErr : Tol (· = .err) := ⟨rfl⟩
+
+theorem Post.npErr {E : Fail → Prop} (hE : Tol E) {α : Type} {Q : α → Prop} : Post E Q (.error .err : R α) :=
+  .error _ hE.err
+
+variable {E : Fail → Prop} (hE : Tol E)
+include hE
 
 -- ---------------------------------------------------------------------------------------------
 -- tokens
 
 theorem hopsWalk_np (plain : Array Nat) (pos maxDist len target : Nat) :
     ∀ (cands : List Nat) (hops maxChain : Nat),
-      Post NP (fun _ => True) (hopsWalk plain pos maxDist len target cands hops maxChain) := by
+      Post E (fun _ => True) (hopsWalk plain pos maxDist len target cands hops maxChain) := by
   intro cands
   induction cands with
-  | nil => intro hops maxChain; exact Post.npErr
+  | nil => intro hops maxChain; exact (Post.npErr hE)
   | cons d rest ih =>
     intro hops maxChain
     rw [hopsWalk]
     split
-    · exact Post.npErr
+    · exact (Post.npErr hE)
     · simp only
       split
       · split
         · exact .ok _ trivial
-        · exact Post.npErr
+        · exact (Post.npErr hE)
       · split
-        · exact Post.npErr
+        · exact (Post.npErr hE)
         · exact ih _ _
 
 theorem calcHops_np (P : Pred H) (plain : Array Nat) (s : PState H) (len dist : Nat) :
-    Post NP (fun _ => True) (calcHops P plain s len dist) := by
+    Post E (fun _ => True) (calcHops P plain s len dist) := by
   unfold calcHops
   split
-  · exact Post.npErr
-  · exact hopsWalk_np _ _ _ _ _ _ _ _
+  · exact (Post.npErr hE)
+  · exact hopsWalk_np hE _ _ _ _ _ _ _ _
 
 theorem encRefTail_np (P : Pred H) (plain : Array Nat) (ops0 : List Op) (plen pdist : Nat) (s2 : PState H)
     (len dist : Nat) (irr : Bool) :
-    Post NP (fun _ => True) (encRefTail P plain ops0 plen pdist s2 len dist irr) := by
+    Post E (fun _ => True) (encRefTail P plain ops0 plen pdist s2 len dist irr) := by
   unfold encRefTail
   simp only
   split
-  · refine Post.bind (calcHops_np P plain s2 len dist) (fun _ h => h) ?_
+  · refine Post.bind (calcHops_np hE P plain s2 len dist) (fun _ h => h) ?_
     intro _ _
     exact .ok _ trivial
   · split
-    · refine Post.bind (calcHops_np P plain s2 len dist) (fun _ h => h) ?_
+    · refine Post.bind (calcHops_np hE P plain s2 len dist) (fun _ h => h) ?_
       intro _ _
       exact .ok _ trivial
     · exact .ok _ trivial
 
 theorem repredict_np (P : Pred H) (plain : Array Nat)
-    (hP : ∀ s m, P.repredictTok plain s ≠ .error (.panic m)) (s : PState H) :
-    Post NP (fun _ => True) (P.repredictTok plain s) := by
+    (hP : ∀ s e, P.repredictTok plain s = .error e → E e) (s : PState H) :
+    Post E (fun _ => True) (P.repredictTok plain s) := by
   cases h : P.repredictTok plain s with
   | ok a => exact .ok _ trivial
-  | error e => exact .error _ (fun m hm => hP s m (by rw [h, hm]))
+  | error e => exact .error _ (hP s e h)
 
 theorem encTok_np (P : Pred H) (plain : Array Nat)
-    (hP : ∀ s m, P.repredictTok plain s ≠ .error (.panic m)) (s : PState H) (t : Token) :
-    Post NP (fun _ => True) (encTok P plain s t) := by
+    (hP : ∀ s e, P.repredictTok plain s = .error e → E e) (s : PState H) (t : Token) :
+    Post E (fun _ => True) (encTok P plain s t) := by
   unfold encTok
   rcases hp : P.predictTok plain s with ⟨pt, pend⟩
   simp only
@@ -80,23 +94,23 @@ theorem encTok_np (P : Pred H) (plain : Array Nat)
     refine Post.bind (Q := fun _ => True) ?_ (fun _ h => h) ?_
     · cases pt with
       | lit =>
-        refine Post.bind (repredict_np P plain hP _) (fun _ h => h) ?_
+        refine Post.bind (repredict_np hE P plain hP _) (fun _ h => h) ?_
         intro _ _
         exact .ok _ trivial
       | ref l d => exact .ok _ trivial
     · intro ⟨ops0, plen, pdist, s2⟩ _
-      exact encRefTail_np P plain ops0 plen pdist s2 len dist irr
+      exact encRefTail_np hE P plain ops0 plen pdist s2 len dist irr
 
 theorem encToks_np (P : Pred H) (plain : Array Nat)
-    (hP : ∀ s m, P.repredictTok plain s ≠ .error (.panic m)) :
-    ∀ (ts : List Token) (s : PState H), Post NP (fun _ => True) (encToks P plain s ts) := by
+    (hP : ∀ s e, P.repredictTok plain s = .error e → E e) :
+    ∀ (ts : List Token) (s : PState H), Post E (fun _ => True) (encToks P plain s ts) := by
   intro ts
   induction ts with
   | nil => intro s; exact .ok _ trivial
   | cons t ts ih =>
     intro s
     rw [encToks]
-    refine Post.bind (encTok_np P plain hP s t) (fun _ h => h) ?_
+    refine Post.bind (encTok_np hE P plain hP s t) (fun _ h => h) ?_
     intro ⟨a, s1⟩ _
     refine Post.bind (ih s1) (fun _ h => h) ?_
     intro ⟨b, s2⟩ _
@@ -106,7 +120,7 @@ theorem encToks_np (P : Pred H) (plain : Array Nat)
 -- dynamic header
 
 theorem encLdTrees_np : ∀ (items : List RleItem) (syms : List Nat) (prev : Option Nat),
-    (items.map itemSpan).sum = syms.length → Post NP (fun _ => True) (encLdTrees syms prev items) := by
+    (items.map itemSpan).sum = syms.length → Post E (fun _ => True) (encLdTrees syms prev items) := by
   intro items
   induction items with
   | nil => intro syms prev _; exact .ok _ trivial
@@ -115,7 +129,7 @@ theorem encLdTrees_np : ∀ (items : List RleItem) (syms : List Nat) (prev : Opt
     simp only [List.map_cons, List.sum_cons] at hs
     rw [encLdTrees]
     split
-    · exact Post.npErr
+    · exact (Post.npErr hE)
     · split
       · omega
       · simp only
@@ -125,7 +139,7 @@ theorem encLdTrees_np : ∀ (items : List RleItem) (syms : List Nat) (prev : Opt
         exact .ok _ trivial
 
 theorem encTree_np (P : Pred H) (h : Header) (hv : HeaderValid h) (freq : List Nat × List Nat) :
-    Post NP (fun _ => True) (encTree P h freq) := by
+    Post E (fun _ => True) (encTree P h freq) := by
   unfold encTree
   generalize P.calcBitLengths freq.1 15 = bl0
   generalize P.calcBitLengths freq.2 15 = dl0
@@ -144,7 +158,7 @@ theorem encTree_np (P : Pred H) (h : Header) (hv : HeaderValid h) (freq : List N
     rw [List.length_append, hbl1len, hdl1len]; exact hv.items_sum
   have hn : ¬ ((h.items.map itemSpan).sum ≠ (bl1 ++ dl1).length) := by omega
   rw [if_neg hn]
-  refine Post.bind (encLdTrees_np h.items (bl1 ++ dl1) none hsum) (fun _ h => h) ?_
+  refine Post.bind (encLdTrees_np hE h.items (bl1 ++ dl1) none hsum) (fun _ h => h) ?_
   intro c _
   exact .ok _ trivial
 
@@ -152,38 +166,38 @@ theorem encTree_np (P : Pred H) (h : Header) (hv : HeaderValid h) (freq : List N
 -- blocks
 
 theorem encTokBlock_np (P : Pred H) (plain : Array Nat)
-    (hP : ∀ s m, P.repredictTok plain s ≠ .error (.panic m)) (s : PState H) (btn : Nat)
+    (hP : ∀ s e, P.repredictTok plain s = .error e → E e) (s : PState H) (btn : Nat)
     (ts : List Token) (last : Bool) (tree : R (List Op)) (hn : ts.length < 2 ^ 32 - 1)
-    (ht : Post NP (fun _ => True) tree) :
-    Post NP (fun _ => True) (encTokBlock P plain s btn ts last tree) := by
+    (ht : Post E (fun _ => True) tree) :
+    Post E (fun _ => True) (encTokBlock P plain s btn ts last tree) := by
   unfold encTokBlock
   simp only
   have hn' : ¬ (ts.length ≥ 2 ^ 32) := by omega
   rw [if_neg hn']
-  refine Post.bind (encToks_np P plain hP ts s) (fun _ h => h) ?_
+  refine Post.bind (encToks_np hE P plain hP ts s) (fun _ h => h) ?_
   intro ⟨tokOps, s1⟩ _
   refine Post.bind ht (fun _ h => h) ?_
   intro treeOps _
   exact .ok _ trivial
 
 theorem encBlock_np (P : Pred H) (plain : Array Nat)
-    (hP : ∀ s m, P.repredictTok plain s ≠ .error (.panic m)) (s : PState H) (b : Block) (last : Bool)
+    (hP : ∀ s e, P.repredictTok plain s = .error e → E e) (s : PState H) (b : Block) (last : Bool)
     (hv : ValidBlock plain s.pos b) :
-    Post NP (fun _ => True) (encBlock P plain s b last) := by
+    Post E (fun _ => True) (encBlock P plain s b last) := by
   cases b with
   | stored pad data => exact .ok _ trivial
   | fixed ts =>
     rw [encBlock_fixed]
-    exact encTokBlock_np P plain hP _ _ ts last _ hv.2 (.ok _ trivial)
+    exact encTokBlock_np hE P plain hP _ _ ts last _ hv.2 (.ok _ trivial)
   | dynamic h ts =>
     rw [encBlock_dynamic]
-    exact encTokBlock_np P plain hP _ _ ts last _ hv.2.1 (encTree_np P h hv.2.2 _)
+    exact encTokBlock_np hE P plain hP _ _ ts last _ hv.2.1 (encTree_np hE P h hv.2.2 _)
 
 theorem encBlocks_post (P : Pred H) (plain : Array Nat)
-    (hP : ∀ s m, P.repredictTok plain s ≠ .error (.panic m)) :
+    (hP : ∀ s e, P.repredictTok plain s = .error e → E e) :
     ∀ (blocks : List Block) (s : PState H), ValidBlocks plain s.pos blocks →
       blocksEnd s.pos blocks = plain.size →
-      Post NP (fun p => p.2.pos = plain.size) (encBlocks P plain s blocks) := by
+      Post E (fun p => p.2.pos = plain.size) (encBlocks P plain s blocks) := by
   intro blocks
   induction blocks with
   | nil => intro s _ hend; exact .ok _ (by simpa [blocksEnd] using hend)
@@ -197,7 +211,7 @@ theorem encBlocks_post (P : Pred H) (plain : Array Nat)
       simpa [blocksEnd] using hend
     rw [encBlocks]
     simp only
-    refine Post.bind (Post.and_ok (encBlock_np P plain hP s b rest.isEmpty hvb)
+    refine Post.bind (Post.and_ok (encBlock_np hE P plain hP s b rest.isEmpty hvb)
       (Q' := fun p => p.2.pos = blockEnd s.pos b) ?_) (fun _ h => h) ?_
     · intro ⟨a, s1⟩ ha
       exact (decBlock_encBlock P plain s b rest.isEmpty hvb hlast a s1 ha []).2.1
@@ -210,12 +224,12 @@ theorem encBlocks_post (P : Pred H) (plain : Array Nat)
 
 theorem encStream_post (P : Pred H) (plain : Array Nat) (blocks : List Block) (pad : Nat)
     (hv : StreamValid plain blocks)
-    (hP : ∀ s m, P.repredictTok plain s ≠ .error (.panic m)) :
-    Post NP (fun _ => True) (encStream P plain blocks pad) := by
+    (hP : ∀ s e, P.repredictTok plain s = .error e → E e) :
+    Post E (fun _ => True) (encStream P plain blocks pad) := by
   obtain ⟨_, hvb, hend⟩ := hv
   unfold encStream
   simp only
-  refine Post.bind (encBlocks_post P plain hP blocks ⟨P.init, none, 0, 0⟩ hvb hend) (fun _ h => h) ?_
+  refine Post.bind (encBlocks_post hE P plain hP blocks ⟨P.init, none, 0, 0⟩ hvb hend) (fun _ h => h) ?_
   intro ⟨ops, s⟩ hpos
   simp only at hpos ⊢
   have he : ¬ ((!s.eof plain) = true) := by simp [PState.eof, hpos]
